@@ -597,6 +597,11 @@ class Walker(object):
             if tv is not None:
                 st.env[tgt.id] = ('type', tv)
                 return [st]
+            if self.is_ctx(val):
+                # a local alias of the context (either side)
+                st.env[tgt.id] = ('expr', val)
+                return [st]
+
             def version_test(v):
                 try:
                     return isinstance(self.cond(v, st), bool)
